@@ -141,6 +141,12 @@ where
         .as_ref()
         .map_or(0, |p| p.len());
 
+    // `preprocessed_width` comes from the proof and sizes the symbolic AIR evaluations below
+    // (`declares_interactions`, `get_log_num_quotient_chunks`). Check it against the verifier's
+    // preprocessed commitment before the AIR is evaluated: an AIR that reads preprocessed
+    // columns panics when it is evaluated without any.
+    validate_preprocessed_presence(preprocessed_width, preprocessed_commit)?;
+
     // Lookups are not supported for recursive single STARK verification: the AIR
     // is evaluated below with empty lookup contexts, which does not enforce any
     // lookup argument. Reject AIRs that declare interactions rather than verifying
@@ -442,6 +448,27 @@ where
     Ok((all_challenges, challenger))
 }
 
+/// Check that preprocessed opened values are present exactly when the verifier holds a
+/// preprocessed commitment.
+fn validate_preprocessed_presence<Comm>(
+    preprocessed_width: usize,
+    preprocessed_commit: &Option<Comm>,
+) -> Result<(), VerificationError> {
+    if preprocessed_commit.is_some() && preprocessed_width == 0 {
+        return Err(VerificationError::InvalidProofShape(
+            "There is a preprocessed commit but no opening values provided.".to_string(),
+        ));
+    }
+
+    if preprocessed_commit.is_none() && preprocessed_width > 0 {
+        return Err(VerificationError::InvalidProofShape(
+            "Preprocessed width is non-zero but no preprocessed commit provided.".to_string(),
+        ));
+    }
+
+    Ok(())
+}
+
 /// Validate the shape of the proof (dimensions, lengths).
 fn validate_proof_shape<A, SC: StarkGenericConfig, Comm>(
     air: &A,
@@ -456,17 +483,7 @@ where
 {
     let air_width = A::width(air);
 
-    if preprocessed_commit.is_some() && preprocessed_width == 0 {
-        return Err(VerificationError::InvalidProofShape(
-            "There is a preprocessed commit but no opening values provided.".to_string(),
-        ));
-    }
-
-    if preprocessed_commit.is_none() && preprocessed_width > 0 {
-        return Err(VerificationError::InvalidProofShape(
-            "Preprocessed width is non-zero but no preprocessed commit provided.".to_string(),
-        ));
-    }
+    validate_preprocessed_presence(preprocessed_width, preprocessed_commit)?;
 
     let OpenedValuesTargets {
         trace_local_targets: opened_trace_local,
